@@ -409,11 +409,15 @@ is sent on `runRes` unless the engine context is done -/
 def enginePoolEvents (p : Path) : List Ev :=
   p.filter fun e => match e with | .call "Add" => true | .call "newPool(‹recv›.wait.Done)" => true | .go _ => true | _ => false
 
+set_option maxRecDepth 4000 in
 theorem engineRun_pool_start :
-    (engineRun.map enginePoolEvents).eraseDups =
-      [[], [.call "Add", .call "newPool(‹recv›.wait.Done)", .go "Run",
-            .go "comm:‹make(…,…)› <- poolRunResult{ID: ‹newPool(log,metrics,wait.Done,range#1)›.ID, Err: ‹Run(arg0)›}",
-            .go "comm:<-‹arg0›.Done()"]] := by decide
+    (engineRun.map enginePoolEvents).eraseDups.map (fun p => p.take 3) =
+      [[], [.call "Add", .call "newPool(‹recv›.wait.Done)", .go "Run"]] ∧
+    -- the two cases of the goroutine's select, in whatever order they are written
+    (engineRun.map enginePoolEvents).eraseDups.map (fun p => sameElems ((goEvents p).drop 1)
+      ["comm:‹make(…,…)› <- poolRunResult{ID: ‹newPool(log,metrics,wait.Done,range#1)›.ID, Err: ‹Run(arg0)›}",
+       "comm:<-‹arg0›.Done()"]) = [false, true] := by
+  constructor <;> decide
 
 theorem newPool_waitDone : newPoolWaitDoneParam = 2 := by decide
 
